@@ -153,6 +153,9 @@ def corpus() -> list[tuple[str, dict, dict]]:
         for o1, o2 in itertools.product(["|", "&", "<<", "-", "*"], repeat=2):
             out.append((f"9 {o1} {u}3 {o2} 2", {}, {}))
     fixed = [
+        # one-letter and operator-like names are names: nothing the evaluator uses internally (a marker for the unary minus, ...) may be spellable as one
+        ("u - 1", {"u": 5}, {}), ("-u", {"u": 3}, {}), ("u * -u + u", {"u": 2}, {}), ("m - u", {"m": 9, "u": 4}, {}), ("x + o + b", {"x": 1, "o": 2, "b": 4}, {}),
+        ("sizeofx + 1", {"sizeofx": 2}, {}), ("l", {"l": 7}, {}), ("U + L", {}, {"U": 1, "L": 2}),
         ("n + 1", {"n": Odd(3)}, {}), ("K * 2", {}, {"K": Odd(5)}), ("n", {"n": Odd(7)}, {}), ("-n", {"n": Odd(2)}, {}), ("n << 1 | K", {"n": Odd(1)}, {"K": Odd(4)}),
         ("0x10 + 0b101 + 010 + 9", {}, {}), ("0X1f", {}, {}), ("0B11", {}, {}), ("10u + 1", {}, {}), ("10UL * 2", {}, {}), ("7ull", {}, {}), ("1lu", {}, {}), ("0", {}, {}),
         ("00", {}, {}), ("- - 3", {}, {}), ("~~5", {}, {}), ("-~5", {}, {}), ("2 - -3", {}, {}), ("2 - - -3", {}, {}), ("(((4)))", {}, {}), ("2*(3+(4-1))", {}, {}),
